@@ -405,6 +405,115 @@ flow:
           at: end
 `
 
+// three pass-through flows on the wildcard pattern (one filter node holding several flows) ...
+func wildFlow(i int) string {
+	return fmt.Sprintf(`name: w%d
+filter:
+  url: "h.com/*"
+processors:
+  P:
+    processor: Filter
+    parameters:
+      - key: header
+        value: "x-never=1"
+flow:
+  request:
+    - from:
+        stream:
+          name: globalStream
+          at: start
+      to:
+        processor:
+          name: P
+    - from:
+        processor:
+          name: P
+          condition: hit
+      to:
+        stream:
+          name: globalStream
+          at: end
+    - from:
+        processor:
+          name: P
+          condition: miss
+      to:
+        stream:
+          name: globalStream
+          at: end
+  response:
+    - from:
+        stream:
+          name: globalStream
+          at: start
+      to:
+        stream:
+          name: globalStream
+          at: end
+`, i)
+}
+
+// ... and one answering flow per specific URL h.com/s<i>, whose body names it
+func specificFlow(i int) string {
+	return fmt.Sprintf(`name: s%d
+filter:
+  url: "h.com/s%d"
+processors:
+  Flt:
+    processor: Filter
+    parameters:
+      - key: header
+        value: "x-never=1"
+  Gen:
+    processor: GenerateResponse
+    parameters:
+      - key: status
+        value: 418
+      - key: body
+        value: "S%d"
+flow:
+  request:
+    - from:
+        stream:
+          name: globalStream
+          at: start
+      to:
+        processor:
+          name: Flt
+    - from:
+        processor:
+          name: Flt
+          condition: miss
+      to:
+        processor:
+          name: Gen
+    - from:
+        processor:
+          name: Flt
+          condition: hit
+      to:
+        stream:
+          name: globalStream
+          at: end
+  response:
+    - from:
+        processor:
+          name: Gen
+      to:
+        stream:
+          name: globalStream
+          at: end
+    - from:
+        stream:
+          name: globalStream
+          at: start
+      to:
+        stream:
+          name: globalStream
+          at: end
+`, i, i, i)
+}
+
 func quotaYAML(kind string, max int) string {
 	if kind == "concurrent" {
 		return fmt.Sprintf("quotas:\n  - id: WQ\n    filter:\n      url: \"h.com/*\"\n    strategy:\n      concurrent:\n        max_request_count: %d\n        request_expiration_sec: 60\n        gc_interval_sec: 30\n", max)
@@ -446,6 +555,12 @@ func runWorkload(w workload) (overlap bool, err error) {
 	_ = dir.WriteQuota("q.yaml", quotaYAML(w.Quota, w.Max))
 	_ = dir.WriteFlow("q.yaml", quotaFlow)
 	_ = dir.WriteFlow("b.yaml", branchFlow)
+	for i := 1; i <= 3; i++ {
+		_ = dir.WriteFlow(fmt.Sprintf("w%d.yaml", i), wildFlow(i))
+	}
+	for i := 1; i <= 4; i++ {
+		_ = dir.WriteFlow(fmt.Sprintf("s%d.yaml", i), specificFlow(i))
+	}
 	s, e := dir.Load()
 	if e != nil {
 		return false, infraErr{"configuration rejected: " + e.Error()}
@@ -471,7 +586,16 @@ func runWorkload(w workload) (overlap bool, err error) {
 					}
 				}
 				id := fmt.Sprintf("g%d-%d", g, i)
-				if (g+i)%2 == 0 {
+				if (g+i)%3 == 2 {
+					// a specific-URL flow next to the wildcard flows: the answer must be this URL's own
+					k := 1 + (g+2*i)%4
+					res := engine.RunRequest(s, engine.Txn{ID: id, Method: "GET", URL: fmt.Sprintf("h.com/s%d", k), Path: fmt.Sprintf("/s%d", k), Headers: map[string]string{"host": "h.com"}})
+					if res.Err != nil {
+						firstErr.CompareAndSwap(nil, res.Err.Error())
+					} else if res.Early == nil || res.Early.Body != fmt.Sprintf("S%d", k) {
+						wrong.Add(1)
+					}
+				} else if (g+i)%2 == 0 {
 					// quota flow
 					res := engine.RunRequest(s, engine.Txn{ID: id, Method: "GET", URL: "h.com/q", Path: "/q", Headers: map[string]string{"host": "h.com"}})
 					if res.Err != nil {
@@ -568,7 +692,7 @@ func runWorkload(w workload) (overlap bool, err error) {
 	quotaTxns := int64(0)
 	for g := 0; g < w.Goroutines; g++ {
 		for i := 0; i < w.PerG; i++ {
-			if (g+i)%2 == 0 {
+			if (g+i)%3 != 2 && (g+i)%2 == 0 {
 				quotaTxns++
 			}
 		}
